@@ -10,16 +10,19 @@ package flexfec
 // ---- FlexFEC-03 masks (property C14): header mask words name exactly the covered media packet indices
 //
 //@ func extractMask1
+//@   functional
 //@   modifies nothing
 //@   ensures bits_0_14: forall k uint32 :: k < 15 ==> (((result >> (14 - k)) & 1 == 1) <==> bitOf(mask.Lo, mask.Hi, k))
 //@   ensures k_bit_clear: result >> 15 == 0
 //@
 //@ func extractMask2
+//@   functional
 //@   modifies nothing
 //@   ensures bits_15_45: forall k uint32 :: 15 <= k && k < 46 ==> (((result >> (45 - k)) & 1 == 1) <==> bitOf(mask.Lo, mask.Hi, k))
 //@   ensures k_bit_clear: result >> 31 == 0
 //@
 //@ func extractMask3_03
+//@   functional
 //@   # the three FlexFEC-03 mask words hold 15 + 31 + 63 = 109 bits: index 109 (and beyond) cannot be named
 //@   requires representable: forall k uint32 :: 109 <= k && k < 128 ==> !bitOf(mask.Lo, mask.Hi, k)
 //@   modifies nothing
@@ -31,14 +34,26 @@ package flexfec
 //@     && (forall f uint32, x uint32 :: f < p.numFecPackets && x < 128 ==>
 //@           (bitOf(p.packetMasks[f].Lo, p.packetMasks[f].Hi, x) <==> (x < p.numMediaPackets && x % p.numFecPackets == f)))
 //@
+//@ # the batch the coverage refers to has numMediaPackets packets
+//@ pred covMedia(p *ProtectionCoverage) := len(p.mediaPackets) == int(p.numMediaPackets)
+//@
 //@ func (*ProtectionCoverage).resetCoverage
 //@   modifies p.packetMasks
 //@   ensures cleared: forall f uint32 :: f < 110 ==> p.packetMasks[f].Lo == 0 && p.packetMasks[f].Hi == 0
 //@   loop 1 invariant cleared: 0 <= rangeint_iter && rangeint_iter < 110 && (forall f uint32 :: f < rangeint_iter ==> p.packetMasks[f].Lo == 0 && p.packetMasks[f].Hi == 0)
 //@   loop 1 decreases 110 - rangeint_iter
 //@
+//@ func NewCoverage
+//@   requires config: numFecPackets <= 110 && len(mediaPackets) < (1 << 31)
+//@   ensures rejected: (len(mediaPackets) == 0 || len(mediaPackets) > 110) ==> result == nil
+//@   ensures made: 1 <= len(mediaPackets) && len(mediaPackets) <= 110 ==> fresh(result) && covInv(result) && covMedia(result)
+//@        && result.numFecPackets == numFecPackets && result.numMediaPackets == uint32(len(mediaPackets)) && result.mediaPackets == mediaPackets
+//@   loop 1 invariant bound: 0 <= rangeint_iter && rangeint_iter < 110
+//@   loop 1 decreases 110 - rangeint_iter
+//@
 //@ func (*ProtectionCoverage).UpdateCoverage
-//@   requires inv: covInv(p)
+//@   requires inv: covInv(p) && covMedia(p)
+//@   ensures media: covMedia(p)
 //@   requires config: numFecPackets <= 110 && len(mediaPackets) < (1 << 31)
 //@   modifies p.packetMasks, p.numFecPackets, p.numMediaPackets, p.mediaPackets
 //@   ensures inv: covInv(p)
@@ -59,20 +74,85 @@ package flexfec
 //@   loop 2 invariant rest_clear: forall f uint32 :: rangeint_iter < f && f < 110 ==> p.packetMasks[f].Lo == 0 && p.packetMasks[f].Hi == 0
 //@   loop 2 decreases numMediaPackets + numFecPackets - coveredMediaPacketIndex
 //@
+//@ # the iterator of repair packet f walks exactly the media packets whose bit is set in mask f, in ascending order
+//@ func (*ProtectionCoverage).GetCoveredBy
+//@   requires inv: covInv(p) && covMedia(p) && fecPacketIndex < p.numFecPackets
+//@   modifies nothing
+//@   ensures iterator: fresh(result) && result.nextIndex == 0 && result.mediaPackets == p.mediaPackets && iterInv(result)
+//@   ensures sound: forall k int :: 0 <= k && k < len(result.coveredIndices) ==> result.coveredIndices[k] < p.numMediaPackets
+//@        && result.coveredIndices[k] % p.numFecPackets == fecPacketIndex
+//@   ensures ascending: forall k int :: 0 <= k && k < len(result.coveredIndices) - 1 ==> result.coveredIndices[k] < result.coveredIndices[k + 1]
+//@   ensures complete: forall x uint32 :: x < p.numMediaPackets && x % p.numFecPackets == fecPacketIndex ==>
+//@        exists k int :: 0 <= k && k < len(result.coveredIndices) && result.coveredIndices[k] == x
+//@   loop 1 invariant shape: mediaPacketIndex <= p.numMediaPackets && (coverage == nil || fresh(coverage)) && 0 <= len(coverage) && len(coverage) <= int(mediaPacketIndex)
+//@   loop 1 invariant sound: forall k int :: 0 <= k && k < len(coverage) ==> coverage[k] < mediaPacketIndex && coverage[k] % p.numFecPackets == fecPacketIndex
+//@   loop 1 invariant ascending: forall k int :: 0 <= k && k < len(coverage) - 1 ==> coverage[k] < coverage[k + 1]
+//@   loop 1 invariant complete: forall x uint32 :: x < mediaPacketIndex && x % p.numFecPackets == fecPacketIndex ==>
+//@        exists k int :: 0 <= k && k < len(coverage) && coverage[k] == x
+//@   loop 1 decreases p.numMediaPackets - mediaPacketIndex
+//@
 //@ func (*ProtectionCoverage).ExtractMask1
 //@   requires inv: covInv(p) && fecPacketIndex < p.numFecPackets
 //@   modifies nothing
 //@   ensures bits_0_14: forall k uint32 :: k < 15 ==> (((result >> (14 - k)) & 1 == 1) <==> (k < p.numMediaPackets && k % p.numFecPackets == fecPacketIndex))
+//@   ensures word: result == extractMask1(p.packetMasks[fecPacketIndex]) && result >> 15 == 0
 //@
 //@ func (*ProtectionCoverage).ExtractMask2
 //@   requires inv: covInv(p) && fecPacketIndex < p.numFecPackets
 //@   modifies nothing
 //@   ensures bits_15_45: forall k uint32 :: 15 <= k && k < 46 ==> (((result >> (45 - k)) & 1 == 1) <==> (k < p.numMediaPackets && k % p.numFecPackets == fecPacketIndex))
+//@   ensures word: result == extractMask2(p.packetMasks[fecPacketIndex]) && result >> 31 == 0
 //@
 //@ func (*ProtectionCoverage).ExtractMask3_03
 //@   requires inv: covInv(p) && fecPacketIndex < p.numFecPackets
 //@   modifies nothing
 //@   ensures bits_46_108: forall k uint32 :: 46 <= k && k < 109 ==> (((result >> (108 - k)) & 1 == 1) <==> (k < p.numMediaPackets && k % p.numFecPackets == fecPacketIndex))
+//@   ensures word: result == extractMask3_03(p.packetMasks[fecPacketIndex]) && result >> 63 == 0
 //@
 //@ # every media packet of an accepted batch is protected by some repair packet
 //@ lemma every_packet_covered: forall nf uint32, x uint32 :: 1 <= nf ==> x % nf < nf
+//@
+//@ # ---- the FlexFEC-03 encoder
+//@ # header size implied by the mask words: 20 bytes, +4 when a second word follows, +8 when a third follows
+//@ def fecHeaderSize(m2 uint32, m3 uint64) int := 20 + ite(m2 != 0 || m3 != 0, 4, 0) + ite(m3 != 0, 8, 0)
+//@
+//@ func (*FlexEncoder03).encodeFlexFecPacket
+//@   requires inv: flex.coverage != nil && covInv(flex.coverage) && covMedia(flex.coverage) && fecPacketIndex < flex.coverage.numFecPackets
+//@   modifies flex.fecBaseSn
+//@   # first pass: the largest marshalled payload size among the protected packets
+//@   loop 1 invariant iter: iterInv(mediaPackets) && fresh(mediaPackets) && mediaPackets.mediaPackets == flex.coverage.mediaPackets
+//@   loop 1 invariant largest: 0 <= maxPayloadSize && maxPayloadSize <= (1 << 41) && (forall k int :: 0 <= k && k < mediaPackets.nextIndex ==>
+//@        mediaPackets.mediaPackets[mediaPackets.coveredIndices[k]].MarshalSize() - 12 <= maxPayloadSize)
+//@   loop 1 decreases len(mediaPackets.coveredIndices) - mediaPackets.nextIndex
+//@   # second pass: XOR every protected packet into the header and repair payload
+//@   loop 2 invariant iter: iterInv(mediaPackets) && fresh(mediaPackets) && fresh(tmpMediaPacketBuf) && 0 <= len(tmpMediaPacketBuf)
+//@   loop 2 decreases len(mediaPackets.coveredIndices) - mediaPackets.nextIndex
+//@   loop 3 invariant bytes: 0 <= byteIndex && byteIndex <= packetSize - 12
+//@   loop 3 decreases packetSize - byteIndex
+//@   ensures numbered: result1 ==> result0.SequenceNumber == old(flex.fecBaseSn) && flex.fecBaseSn == old(flex.fecBaseSn) + 1
+//@        && result0.PayloadType == flex.payloadType && result0.SSRC == flex.ssrc
+//@   ensures skipped: !result1 ==> flex.fecBaseSn == old(flex.fecBaseSn)
+//@   ensures header_fits: result1 ==> len(result0.Payload) >= fecHeaderSize(extractMask2(flex.coverage.packetMasks[fecPacketIndex]), extractMask3_03(flex.coverage.packetMasks[fecPacketIndex]))
+//@   ensures mask_words: result1 ==> result0.Payload[18] & 0x7f == uint8(extractMask1(flex.coverage.packetMasks[fecPacketIndex]) >> 8)
+//@        && result0.Payload[19] == uint8(extractMask1(flex.coverage.packetMasks[fecPacketIndex]))
+//@   ensures base_sn: result1 ==> result0.Payload[16] == uint8(mediaBaseSn >> 8) && result0.Payload[17] == uint8(mediaBaseSn)
+//@
+//@ # one batch: repair packets carry the FEC SSRC and payload type, numbered consecutively from where the previous batch stopped
+//@ func (*FlexEncoder03).EncodeFec
+//@   requires config: len(mediaPackets) <= 110 && numFecPackets <= 110
+//@   requires inv: flex.coverage != nil ==> covInv(flex.coverage) && covMedia(flex.coverage)
+//@   modifies flex.fecBaseSn, flex.coverage, all ProtectionCoverage.*
+//@   ensures inv: flex.coverage != nil ==> covInv(flex.coverage) && covMedia(flex.coverage)
+//@   ensures empty_batch: len(mediaPackets) == 0 ==> result == nil && flex.fecBaseSn == old(flex.fecBaseSn)
+//@   ensures at_most: len(result) <= int(numFecPackets)
+//@   ensures numbered: forall i int :: 0 <= i && i < len(result) ==> result[i].SequenceNumber == old(flex.fecBaseSn) + uint16(i)
+//@        && result[i].PayloadType == flex.payloadType && result[i].SSRC == flex.ssrc
+//@   ensures base_advances: flex.fecBaseSn == old(flex.fecBaseSn) + uint16(len(result))
+//@   loop 1 invariant consecutive: 1 <= i && i <= len(mediaPackets)
+//@   loop 1 decreases len(mediaPackets) - i
+//@   loop 2 invariant shape: flex.coverage != nil && covInv(flex.coverage) && covMedia(flex.coverage) && flex.coverage.numFecPackets == numFecPackets
+//@        && rangeint_iter < numFecPackets && 0 <= len(fecPackets) && len(fecPackets) <= int(rangeint_iter) && fresh(fecPackets)
+//@        && flex.fecBaseSn == old(flex.fecBaseSn) + uint16(len(fecPackets))
+//@   loop 2 invariant numbered: forall i int :: 0 <= i && i < len(fecPackets) ==> fecPackets[i].SequenceNumber == old(flex.fecBaseSn) + uint16(i)
+//@        && fecPackets[i].PayloadType == flex.payloadType && fecPackets[i].SSRC == flex.ssrc
+//@   loop 2 decreases numFecPackets - rangeint_iter
